@@ -28,7 +28,7 @@ fn build_validates_default_mesh_parameters() {
     b.mesh_n(small()).mesh_n_low(small()).mesh_n_high(small()).mesh_outbound_min(small());
     match b.build() {
         Ok(c) => {
-            assert!(mesh_ok(&c, None), "C34 accepted config: default mesh parameters violate the mesh inequalities");
+            kani::assert(mesh_ok(&c, None), "C34 accepted config: default mesh parameters violate the mesh inequalities");
             std::mem::forget(c);
         }
         Err(e) => std::mem::forget(e),
@@ -60,7 +60,7 @@ fn build_validates_default_max_transmit_size() {
     b.max_transmit_size(kani::any::<usize>());
     match b.build() {
         Ok(c) => {
-            assert!(c.max_transmit_size() >= 100, "C34 accepted config: default max_transmit_size < 100");
+            kani::assert(c.max_transmit_size() >= 100, "C34 accepted config: default max_transmit_size < 100");
             std::mem::forget(c);
         }
         Err(e) => std::mem::forget(e),
@@ -111,7 +111,9 @@ fn build_validates_topic_configured_by_setter() {
     b.mesh_n_for_topic(small(), t.clone());
     match b.build() {
         Ok(c) => {
-            assert!(topic_set_ok(&c, &t), "C34 accepted config: topic configured by mesh_n_for_topic only violates the mesh inequalities");
+            // kani::assert: the check description is the message verbatim (assert! wraps it in quotes);
+            // known_findings.json keys on it
+            kani::assert(topic_set_ok(&c, &t), "C34 accepted config: topic configured by mesh_n_for_topic only violates the mesh inequalities");
             std::mem::forget(c);
         }
         Err(e) => std::mem::forget(e),
@@ -129,7 +131,7 @@ fn build_validates_topic_configured_by_set_topic_config() {
     b.set_topic_config(t.clone(), TopicMeshConfig { mesh_n: small(), mesh_n_low: small(), mesh_n_high: small(), mesh_outbound_min: small() });
     match b.build() {
         Ok(c) => {
-            assert!(topic_set_ok(&c, &t), "C34 accepted config: topic configured by set_topic_config only violates the mesh inequalities");
+            kani::assert(topic_set_ok(&c, &t), "C34 accepted config: topic configured by set_topic_config only violates the mesh inequalities");
             std::mem::forget(c);
         }
         Err(e) => std::mem::forget(e),
